@@ -172,6 +172,7 @@ def explore(ctx):
             ctx.oracle_failure(info, fails[:6])
     periodic_shifts(ctx, unwrap_terms)
     periodic_shifts_ppv(ctx)
+    independent_rows(ctx)
     empty_catalogs(ctx)
     terms = ['(%s, %s, %s)' % (cz(n_), clist(l), clist(un)) for n_, l, un in unwrap_terms]
     # distinct terms only
@@ -181,6 +182,97 @@ def explore(ctx):
     ctx.notes['unwrap cases tied'] = len(terms)
     for i in mism[:5]:
         ctx.tie_mismatch('un-wrap heuristic (Catalog.unwrap)', {'term': terms[i]}, None, None)
+
+
+def independent_rows(ctx):
+    """Rows checked without the statistic classes: centroids through rotated / projected / distorted WCS against the
+    transformed mean pixel position; Jy/beam fluxes against the textbook conversion with beam and pixel sizes given in
+    different angular units; one long periodic axis (129..300 pixels) with a structure across its ends."""
+    import math
+    from . import wcs_common as wc
+    rng = ctx.rng('c12-independent')
+    for it in range(40 if ctx.quick else 400):
+        shape = (rng.randint(4, 8), rng.randint(4, 8))
+        vals = list(range(1, shape[0] * shape[1] + 1))
+        rng.shuffle(vals)
+        arr = np.array(vals, dtype=float).reshape(shape)
+        info = {'stream': 'independent rows', 'shape': list(shape), 'data': vals}
+        fails = []
+        try:
+            d = Dendrogram.compute(arr, min_value=rng.choice([0, 5]), min_npix=rng.choice([0, 2]))
+            w, expect, desc = rng.choice([wc.rotated_linear, lambda r: wc.celestial(r, False), lambda r: wc.celestial(r, True)])(rng)
+            info['wcs'] = desc
+            with warnings.catch_warnings():
+                warnings.simplefilter('ignore')
+                cat = pp_catalog(d, {'data_unit': u.Jy, 'wcs': w}, fields=rng.choice([['x_cen', 'y_cen'], None]), verbose=False)
+            for r in cat:
+                s_ = d[int(r['_idx'])]
+                cy, cx = wc.centroid(s_)
+                e = expect([cx, cy])
+                if not (close(float(r['x_cen']), e[0], 1e-9) and close(float(r['y_cen']), e[1], 1e-9)):
+                    fails.append('row %d: (x_cen, y_cen) = (%r, %r) through a WCS with %s; the transformed mean pixel position is (%r, %r)'
+                                 % (s_.idx, float(r['x_cen']), float(r['y_cen']), desc, float(e[0]), float(e[1])))
+                    break
+            ctx.count('independent_wcs=' + desc.split(' rotated')[0])
+            # surface brightness per beam: beam in one angular unit, pixel in another
+            ss = rng.choice([2.0, 7.2, 0.5]) * rng.choice([u.arcsec, u.arcmin])
+            bmaj = rng.choice([0.002, 0.01, 0.05]) * rng.choice([u.deg, u.arcmin])
+            bmin = bmaj * rng.choice([1.0, 0.5])
+            with warnings.catch_warnings():
+                warnings.simplefilter('ignore')
+                cat = pp_catalog(d, {'data_unit': u.Jy / u.beam, 'spatial_scale': ss, 'beam_major': bmaj, 'beam_minor': bmin},
+                                 fields=['flux'], verbose=False)
+            pix = ss.to(u.deg).value ** 2
+            beam = math.pi / (4 * math.log(2)) * bmaj.to(u.deg).value * bmin.to(u.deg).value
+            for r in cat:
+                s_ = d[int(r['_idx'])]
+                want = float(np.sum(s_.values(subtree=True))) * pix / beam
+                if str(cat['flux'].unit) != 'Jy' or not close(float(r['flux']), want, 1e-4):      # the code rounds pi/(4 ln 2) to 1.1331
+                    fails.append('row %d: flux %r %s for Jy/beam pixels of %s and a %s x %s beam; sum x pixel area / beam area = %r Jy'
+                                 % (s_.idx, float(r['flux']), cat['flux'].unit, ss, bmaj, bmin, want))
+                    break
+            ctx.count('independent_jy_per_beam')
+        except Exception as e:
+            fails.append('raised %r' % (e,))
+        ctx.case_done(None, ('independent', it))
+        if fails:
+            ctx.oracle_failure(info, fails)
+    for it in range(6 if ctx.quick else 60):
+        n = rng.choice([rng.randint(129, 255), rng.randint(236, 255), rng.randint(236, 255), rng.randint(256, 300)])
+        ny = rng.randint(2, 3)
+        wdt = rng.randint(3, 6) if n < 236 else rng.randint(22, 30)      # un-wrapped columns run up to n + wdt - 3
+        blob = [[rng.randint(3, 40) for _ in range(wdt)] for _ in range(ny)]
+        info = {'stream': 'long periodic axis', 'axis_length': n, 'blob': blob}
+        rows = {}
+        fails = []
+        try:
+            for x0 in (n // 2, n - 2, n - wdt + 1, 0):
+                arr = np.zeros((ny, n))
+                for y in range(ny):
+                    for k in range(wdt):
+                        arr[y, (x0 + k) % n] = blob[y][k]
+                d = Dendrogram.compute(arr, min_value=1, neighbours=periodic_neighbours(1))
+                with warnings.catch_warnings():
+                    warnings.simplefilter('ignore')
+                    cat = pp_catalog(d, {'data_unit': u.Jy}, fields=['major_sigma', 'minor_sigma', 'x_cen', 'y_cen', 'flux'], verbose=False)
+                tr = [r for r in cat if d[int(r['_idx'])].parent is None]
+                if len(tr) != 1:
+                    fails.append('blob at %d: %d trunk rows' % (x0, len(tr)))
+                    break
+                r = tr[0]
+                rows[x0] = (float(r['major_sigma']), float(r['minor_sigma']), (float(r['x_cen']) - x0) % n, float(r['y_cen']), float(r['flux']))
+            ref = rows.get(n // 2)
+            for x0, row in rows.items():
+                if not all(abs(a_ - b_) < 1e-6 for a_, b_ in zip(row, ref)):
+                    fails.append('the same blob placed at column %d of a periodic axis of length %d has (major, minor, x_cen - start, y_cen, flux) = %s; '
+                                 'in the middle of the axis %s' % (x0, n, row, ref))
+                    break
+        except Exception as e:
+            fails.append('raised %r' % (e,))
+        ctx.count('long_periodic_axis')
+        ctx.case_done(None, ('long-axis', it))
+        if fails:
+            ctx.oracle_failure(info, fails)
 
 
 def empty_catalogs(ctx):
